@@ -375,9 +375,102 @@ def run_one(desc: dict, controller: "Recorder | None" = None) -> dict:
     hdr = {"nops": nops + extra_ops, "unitops": nops, "workers": desc.get("workers", 1), "maxfail": desc.get("max_failures", 0) or 0,
            "maxex": desc.get("max_examples", 3), "cof": bool(desc.get("cof")), "unique": bool(desc.get("unique")),
            "enabled": [p in desc["phases"] for p in PHASES], "steps": desc.get("step_count", 3),
-           "rateL": int(desc.get("rate") or 0), "rateW": 1000,
+           "rateL": int(desc.get("rate") or 0), "rateW": 1000, "cli": False, "handlerfault": False,
            "hasfault": desc.get("fault") is not None, "faultfired": rec.fault_fired,
            "invalid": [i for i, b in enumerate(desc["ops"], 1) if b == "invalid"],
            "weird": [i for i, b in enumerate(desc["ops"], 1) if b == "weird"], "wall_ms": int((time.time() - t0) * 1000),
            "diverged": getattr(rec, "diverged", ""), "followed": getattr(rec, "followed", 0)}
     return {"hdr": hdr, "lines": lines, "desc": desc}
+
+
+def run_cli(desc: dict) -> dict:
+    """The same abstract descriptor executed by the REAL command line in a subprocess (`st run`): what is observable from outside
+    is the traffic at the scripted API and the process exit code. `handler_fault`: a custom event handler (registered through
+    SCHEMATHESIS_HOOKS) raises on the first ScenarioFinished."""
+    import json
+    import os
+    import shutil
+    import subprocess
+    import tempfile
+
+    from .server import LoopbackServer, json_response
+
+    nops = len(desc["ops"])
+    raw = build_schema(dict(desc, links=False))
+    for path_item in raw["paths"].values():     # the schema travels as JSON: the unserialisable example becomes what YAML loaders give
+        for op in path_item.values():
+            for prm in op.get("parameters", []):
+                ex = prm.get("schema", {}).get("example")
+                if ex is not None and not isinstance(ex, (str, int, float, bool)):
+                    prm["schema"]["example"] = str(ex)
+    lines: list[dict] = []
+    lock = threading.Lock()
+
+    def behaviour(r):
+        if r.path.endswith("/openapi.json"):
+            return 200, [("Content-Type", "application/json")], json.dumps(raw).encode()
+        op, bad, status = 0, False, 200
+        if r.path.startswith("/o"):
+            try:
+                op = int(r.path[2:])
+            except ValueError:
+                op = 0
+            beh = desc["ops"][op - 1] if 1 <= op <= nops else "ok"
+            if beh == "bad":
+                status, bad = 500, True
+            elif beh == "badif":
+                q = 0
+                for part in r.query.split("&"):
+                    if part.startswith("q="):
+                        try:
+                            q = int(part[2:])
+                        except ValueError:
+                            q = 0
+                if q > 100:
+                    status, bad = 500, True
+            elif beh == "neterr":
+                bad, status = True, -1
+        with lock:
+            lines.append({"e": "R", "op": op, "bad": bad, "ph": 4, "dg": len(lines) + 1, "t": int(r.t_ms)})
+        if status == -1:
+            raise ConnectionAbortedError("scripted network error")
+        return json_response(status, {})
+
+    d = tempfile.mkdtemp(prefix="verif-cli-")
+    try:
+        with LoopbackServer(behaviour) as srv:
+            cmd = ["/venv/bin/st", "run", srv.base_url + "/openapi.json", "--phases", ",".join(p for p in desc["phases"] if p != "stateful"),
+                   "--max-examples", str(desc.get("max_examples", 2)), "--checks", "not_a_server_error", "--workers", str(desc.get("workers", 1)),
+                   "--seed", str(desc.get("seed", 1))]
+            if desc.get("max_failures"):
+                cmd += ["--max-failures", str(desc["max_failures"])]
+            if desc.get("cof"):
+                cmd += ["--continue-on-failure"]
+            env = dict(os.environ, COLUMNS="200", NO_COLOR="1", TERM="dumb")
+            env.pop("SCHEMATHESIS_HOOKS", None)
+            if desc.get("handler_fault"):
+                with open(os.path.join(d, "verifhooks.py"), "w") as fd:
+                    fd.write("import schemathesis\nfrom schemathesis import cli\nfrom schemathesis.engine import events\n\n"
+                             "@cli.handler()\nclass Boom(cli.EventHandler):\n"
+                             "    def handle_event(self, ctx, event):\n"
+                             "        if isinstance(event, events.ScenarioFinished):\n"
+                             "            raise RuntimeError('injected handler fault')\n")
+                env["SCHEMATHESIS_HOOKS"] = "verifhooks"
+            proc = subprocess.run(cmd, capture_output=True, text=True, cwd=d, env=env, timeout=300)
+    finally:
+        shutil.rmtree(d, ignore_errors=True)
+    lines.append({"e": "X", "code": int(proc.returncode), "ph": 5})
+    full_lines = []
+    for ln in lines:
+        full = {"e": "", "k": "", "ph": 0, "su": 0, "sc": 0, "op": 0, "st": "", "skip": "", "en": True, "bad": False, "dg": 0,
+                "thr": 0, "nfail": 0, "reqok": True, "code": 0, "site": "", "exc": "", "stop": False, "fails": 0, "limit": False,
+                "rel": True, "err": "", "case": 0, "ctxerr": "", "t": 0, "role": "", "tok": ""}
+        full.update(ln)
+        full_lines.append(full)
+    hdr = {"nops": nops, "unitops": nops, "workers": desc.get("workers", 1), "maxfail": desc.get("max_failures", 0) or 0,
+           "maxex": desc.get("max_examples", 2), "cof": bool(desc.get("cof")), "unique": False,
+           "enabled": [p in desc["phases"] for p in PHASES], "steps": 3, "rateL": 0, "rateW": 1000, "cli": True,
+           "handlerfault": bool(desc.get("handler_fault")), "hasfault": False, "faultfired": False,
+           "invalid": [i for i, b in enumerate(desc["ops"], 1) if b == "invalid"],
+           "weird": [], "wall_ms": 0, "diverged": "", "followed": 0, "tail": (proc.stdout + proc.stderr)[-600:]}
+    return {"hdr": hdr, "lines": full_lines, "desc": dict(desc, cli=True)}
